@@ -330,7 +330,7 @@ def dechunk_response(rest):
         i += 2
 
 
-SEG = ["a", "b c", "é", "%", "?x", "#", "a;b", "☃", "..", ".", "+", "&=", "@:", "x/y", "%2F"]
+SEG = ["a", "b c", "é", "%", "?x", "#", "a;b", "☃", "..", ".", "+", "&=", "@:", "x/y", "%2F", "[x", "y]", "[::1]", "[v1.x]"]
 
 
 def check_exchange(S, rec, rng):
@@ -339,13 +339,14 @@ def check_exchange(S, rec, rng):
     if rng.random() < 0.15:
         path = "/" + path
     # sub-delims, ':' and '@' may appear literally in a path (RFC 3986 pchar); sometimes they are sent unescaped
-    target = quote(path, safe="/" if rng.random() < 0.6 else "/;=,@:!$&'()*+")
+    # (browsers also send square brackets as they are)
+    target = quote(path, safe=rng.choice(["/", "/", "/", "/;=,@:!$&'()*+", "/;=,@:!$&'()*+[]"]))
     qs = rng.choice(["", "a=1&b=%C3%A9", "x=%20%2F&y", "raw=é".encode().decode("latin1"), "q=a+b&&="])
     # any token is a method (RFC 9110 9.1): extension methods carry '-', '_', digits
     method = rng.choice(["GET", "POST", "PUT", "DELETE", "OPTIONS", "PATCH", "HEAD", "GET", "POST", "M-SEARCH", "VERSION-CONTROL", "PURGE2", "X_PURGE", "get"])
     absform = rng.random() < 0.1
     # absolute-form targets name any authority: a port, a port number no socket has, text where the port should be
-    absnet = rng.choice(["abs.example", "abs.example", "abs.example:8080", "abs.example:99999", "abs.example:abc", "abs.example:"]) if absform else None
+    absnet = rng.choice(["abs.example", "abs.example", "abs.example:8080", "abs.example:99999", "abs.example:abc", "abs.example:", "[::1]", "[::1]:80", "[x", "[::1"]) if absform else None
     line = (f"http://{absnet}{target}" if absform else target) + ("?" + qs if qs else "")
     body = bytes(rng.choice(b"ab\r\n0") for _ in range(rng.randint(0, 30)))
     use_chunked = rng.random() < 0.5
@@ -575,6 +576,14 @@ def check_exchange(S, rec, rng):
             out = out[len(interim):]
     if out.startswith(interim + b"HTTP/1.") and not expect:
         rec.violation("C19/interim-response-nobody-asked-for", f"{out[:80]!r}; {case}", case, monitor="wire-parser")
+        return
+    if "env" not in seen and absnet in ("[x", "[::1"):
+        # an absolute-form target whose authority is not one (a bracket that is never closed): the request has no meaning
+        # to deliver; the client is told so
+        rec.observe("targets_that_are_no_urls")
+        r400 = parse_response(out)
+        if r400 is None or r400["code"] != 400:
+            rec.violation("C19/no-answer-to-a-target-that-is-no-url", f"request line {line!r}: the client received {out[:120]!r}", case, monitor="wire-parser")
         return
     if "env" not in seen:
         rec.violation("C19/application-not-called", f"response {out[:200]!r}; {case}", case, monitor="request-side")
